@@ -75,6 +75,8 @@ def _version_of(vc, name):
          clauses=['idle_exit_leaves_no_event', 'got_item_processed_next', 'order_invariant', 'frame_streams',
                   'consistency_bookkeeping', 'no_retire_before_consistency_deadline', 'processor_gets_current_expectation'],
          canaries=['canary.never_idle_exit', 'canary.queue_empty_when_timeout_fires'],
+         native_replays={'idle_exit_leaves_no_event': 'drivers/q1_idle_race.py', 'order_invariant': 'drivers/q1_idle_race.py',
+                         'got_item_processed_next': 'drivers/q1_idle_race.py'},
          trusted=['asyncio.Queue FIFO / cancelled get() removes nothing', 'asyncio.wait_for contract', 'asyncio.Condition'])
 def Q1(vc):
     """
